@@ -62,7 +62,7 @@ inline EdgeList hypercube(int d) {
     for (int v = 0; v < g.n; ++v) for (int b = 0; b < d; ++b) if (!(v >> b & 1)) g.e.push_back({v, v | 1 << b});
     return g;
 }
-inline EdgeList complete(int n) { return graph_from_mask(n, num_graphs(n) - 1); }
+inline EdgeList complete(int n) { EdgeList g; g.n = n; g.e = all_pairs(n); return g; }
 inline EdgeList complete_bipartite(int a, int b) {
     EdgeList g; g.n = a + b;
     for (int i = 0; i < a; ++i) for (int j = 0; j < b; ++j) g.e.push_back({i, a + j});
@@ -97,13 +97,28 @@ inline EdgeList cycle_graph(int k) {
     for (int i = 0; i < k; ++i) { int j = (i + 1) % k; g.e.push_back({std::min(i, j), std::max(i, j)}); }
     return g;
 }
+// brick wall (hexagonal lattice patch): a x b grid with every other vertical edge removed -> all faces are hexagons
+inline EdgeList brick(int a, int b) {
+    EdgeList g; g.n = a * b;
+    for (int i = 0; i < a; ++i) for (int j = 0; j < b; ++j) {
+        if (j + 1 < b) g.e.push_back({i * b + j, i * b + j + 1});
+        if (i + 1 < a && (i + j) % 2 == 0) g.e.push_back({i * b + j, (i + 1) * b + j});
+    }
+    return g;
+}
+// every edge of a graph subdivided once (even cycles only, many equal-length shortest paths with >= 3 edges)
+inline EdgeList subdivided(const EdgeList &h) {
+    EdgeList g; g.n = h.n;
+    for (auto &e : h.e) { int x = g.n++; g.e.push_back({e.first, x}); g.e.push_back({e.second, x}); }
+    return g;
+}
 inline EdgeList disjoint_union(const EdgeList &a, const EdgeList &b) {
     EdgeList g = a; g.n = a.n + b.n;
     for (auto &x : b.e) g.e.push_back({x.first + a.n, x.second + a.n});
     return g;
 }
 
-// named family by spec string: grid:a:b torus:a:b cube:d K:n Kb:a:b wheel:k prism:k petersen cycle:k
+// named family by spec string: grid:a:b torus:a:b cube:d K:n Kb:a:b wheel:k prism:k petersen cycle:k brick:a:b subgrid:a:b subcube:d
 inline EdgeList family(const std::string &spec) {
     std::vector<std::string> t; { std::string c; for (char ch : spec) { if (ch == ':') { t.push_back(c); c.clear(); } else c += ch; } t.push_back(c); }
     auto I = [&](size_t i) { return i < t.size() ? atoi(t[i].c_str()) : 0; };
@@ -116,6 +131,9 @@ inline EdgeList family(const std::string &spec) {
     if (t[0] == "prism") return prism(I(1));
     if (t[0] == "petersen") return petersen();
     if (t[0] == "cycle") return cycle_graph(I(1));
+    if (t[0] == "brick") return brick(I(1), I(2));
+    if (t[0] == "subgrid") return subdivided(grid(I(1), I(2)));
+    if (t[0] == "subcube") return subdivided(hypercube(I(1)));
     fprintf(stderr, "unknown family %s\n", spec.c_str()); exit(2);
 }
 
@@ -180,6 +198,7 @@ inline int cycle_space_dim(const EdgeList &g) { return g.m() - g.n + components(
 // ---- all simple cycles as edge bitmasks (m <= 63) ----
 inline std::vector<uint64_t> all_simple_cycles(const EdgeList &g) {
     std::vector<uint64_t> out;
+    if (g.m() > 63) { fprintf(stderr, "HARNESS-ERROR all_simple_cycles called on a graph with %d > 63 edges\n", g.m()); exit(2); }
     int n = g.n;
     std::vector<std::vector<std::pair<int, int>>> adj(n);
     for (int i = 0; i < g.m(); ++i) { adj[g.e[i].first].push_back({g.e[i].second, i}); adj[g.e[i].second].push_back({g.e[i].first, i}); }
